@@ -156,11 +156,19 @@ def aggregate(mod, prop, tier, seed, results, inconclusive_batches, known, wall)
     from vlib import caseio
     replay_paths = []
     for sig, lst in new_sigs.items():
-        rec, v = min(lst, key=lambda rv: len(json.dumps(rv[0].get("case", ""))))
-        path = os.path.join(evdir, "replays", "%s-%s.json" % (prop, caseio.digest([sig, rec.get("case")])))
+        # prefer a witness that was shrunk for THIS signature; otherwise the unshrunk case of a record showing it
+        def wcase(rv):
+            r = rv[0]
+            if r.get("case_sig") == sig or "case_full" not in r:
+                return r.get("case")
+            return r.get("case_full")
+        own = [rv for rv in lst if rv[0].get("case_sig") == sig]
+        rec, v = min(own or lst, key=lambda rv: len(json.dumps(wcase(rv) or "")))
+        wc = wcase((rec, v))
+        path = os.path.join(evdir, "replays", "%s-%s.json" % (prop, caseio.digest([sig, wc])))
         with open(path, "w") as f:
             json.dump({"property": prop, "module": mod.__name__, "sig": sig, "violation": v,
-                       "case": rec.get("case"), "seed": seed, "tier": tier, "index": rec["i"],
+                       "case": wc, "seed": seed, "tier": tier, "index": rec["i"],
                        "count": len(lst)}, f, indent=1)
         replay_paths.append(path)
         print("VIOLATION property=%s replay=%s" % (prop, path))
@@ -226,8 +234,13 @@ def do_replay(mod, modname, path, env, known):
             "import importlib; m=importlib.import_module('checks.%s');"
             "d=json.load(open(%r)); r=worker.run_one(m,d['case'],600);"
             "print(json.dumps(__import__('vlib.caseio').caseio.jsonable(r)))" % (HERE, modname, path))
-    p = subprocess.run([PY, "-c", code], cwd=HERE, env=env, stdout=subprocess.PIPE, stderr=subprocess.PIPE,
-                       timeout=1200)
+    tmp = tempfile.mkdtemp(prefix="verif-replay-")
+    env = dict(env, TMPDIR=tmp)
+    try:
+        p = subprocess.run([PY, "-c", code], cwd=HERE, env=env, stdout=subprocess.PIPE, stderr=subprocess.PIPE,
+                           timeout=1200)
+    finally:
+        shutil.rmtree(tmp, ignore_errors=True)
     if p.returncode != 0:
         print(p.stderr.decode()[-3000:])
         return 2
